@@ -36,14 +36,15 @@ os.makedirs(os.path.join(wt, dest_dir), exist_ok=True)
 dest = os.path.join(wt, dest_dir, "zz_seed_demo%s_test.go" % k)
 m = re.search(r"-run\s+'?\"?([^'\"\s]+)", meta["demo_cmd"])
 run = m.group(1) if m else "."
+race = "-race " if "-race" in meta["demo_cmd"] else ""     # demonstrations of data races need the detector
 res = {}
 sh("git checkout -- .")
 open(dest, "w").write(open(src).read())
-rc, out = sh("go test -vet=off -count=1 -run '%s' ./%s/" % (run, dest_dir))
+rc, out = sh("go test %s-vet=off -count=1 -run '%s' ./%s/" % (race, run, dest_dir))
 res["demo_passes_without_patch"] = rc == 0
 rc, out = sh("git apply SEED/patch%s.diff" % k)
 assert rc == 0, out
-rc, out = sh("go test -vet=off -count=1 -run '%s' ./%s/" % (run, dest_dir))
+rc, out = sh("go test %s-vet=off -count=1 -run '%s' ./%s/" % (race, run, dest_dir))
 res["demo_fails_with_patch"] = rc != 0
 res["demo_output_tail"] = out[-400:]
 os.remove(dest)
